@@ -191,6 +191,8 @@ def views_oracle(o):
 
 def collapse(s):
     """Error kinds Enosuper / Eunk.x both become 'E' (used for `{} + A` only)."""
+    if not s.startswith("F="):
+        return s
     out = []
     for part in s.split("|"):
         k, v = part.split("=", 1)
